@@ -131,7 +131,7 @@ def classes(case):
 
 SUBS = [
     Sub("wide-groups", check, gen=lambda tier: st.one_of(_bool.wide_group_cases(max_members=24), _bool.wide_group_cases(max_members=10)),
-        nontrivial=nontrivial, classes=classes, n={"quick": 16, "thorough": 500},
+        nontrivial=nontrivial, classes=classes, n={"quick": 7, "thorough": 300},
         essential=["bounds:text-order-differs", "pl-too"]),
     # the propositional export of a group of 16-17 members (tens of thousands of combinations, megabytes of text):
     # few cases, few selections - bounds in particular arithmetic relationships to the number of members
